@@ -28,6 +28,10 @@ CHECKS = {
             "In this implementation a sweep never contains two expansions (the layer below an expansion always holds fresh leaves), so the sweep-monotonicity clause is vacuous on the current tree; DOO default delta on a concrete box.", "§3 C08"),
     "C11": ("Run-level symbolic exploration of Zooming on symbolic boxes, symbolic split draws and symbolic rewards: after every round z3 proves every active arm lies in its cell, the harness checks that the cells of the active arms are exactly the leaves of the partition (coverage), each pull returns an active arm whose index mean + 2 sqrt(8 phase/(2+pulls)) (reference phase clock, means from the ledger) is >= every other arm's, arm means/counts equal the history's, the cell is refined iff its radius <= nu rho^depth (both directions), and the other children receive fresh arms at their centres.",
             "Phase clock of the reference: phase i lasts 2^i rounds; ties either way.", "§3 C11"),
+    "C12": ("Run-level symbolic exploration of SequOOL for n in 10..12 (thorough ..20) over the whole schedule plus post-schedule rounds: h_max re-derived in exact rationals; openings reconstructed from observables; root first, depth by depth, at most floor(h_max/h) openings per depth, never beyond h_max, each opened cell unopened and evaluated, z3 proves its reward >= every other unopened cell's of that depth, children evaluated exactly once and in order, no cell evaluated twice, post-schedule pulls return the domain centre and leave get_last_point unchanged.",
+            "Ties either way; bounded budgets.", "§3 C12"),
+    "C13": ("Run-level symbolic exploration of VROOM with np.random.choice stubbed (records the weight vector, forks over every index with positive weight), descent signs forking and uniform draws symbolic: ranks per depth are a permutation of 1..2^h, z3 proves they are non-increasing in the reference lower-confidence value, the weight vector equals 1/(h*rank*C) in exact rationals and sums to one, the returned point lies in the drawn cell and in the sampled descendant (validity), the descent reaches the depth cap, and the reward is credited to exactly the drawn cell and the descendants on the sampled path.",
+            "RNG conformance to the weight vector is NumPy's contract; binary-child partitions in d=1.", "§3 C13"),
 }
 
 NOT_YET = {}
